@@ -111,7 +111,7 @@ func drawRaw(t *rapid.T) ([]byte, string) {
 }
 
 func TestRawBytes(t *testing.T) {
-	ev.Checks(10000, 40000)
+	ev.Checks(16000, 40000)
 
 	rapid.Check(t, func(t *rapid.T) {
 		b, class := drawRaw(t)
@@ -128,7 +128,6 @@ func treeConfig() gmime.Config {
 		SimpleGroups: kf.Listed(kfGroupMembers), NoDelimiterPadding: kf.Listed(kfDelimPadding), NoContentTypeComments: kf.Listed(kfCTComment)}
 }
 
-
 func treeLabels(tree *gmime.Tree) []string {
 	ls := make([]string, 0, len(tree.Labels))
 	for _, l := range tree.Labels {
@@ -139,7 +138,7 @@ func treeLabels(tree *gmime.Tree) []string {
 }
 
 func TestWellFormedTrees(t *testing.T) {
-	ev.Checks(12000, 30000)
+	ev.Checks(18000, 30000)
 
 	rapid.Check(t, func(t *rapid.T) {
 		tree := gmime.Draw(t, treeConfig())
@@ -188,7 +187,7 @@ func pmField(o *outcome, which int) string {
 // ---- (iii) mutations -----------------------------------------------------------------------------------------------------
 
 func TestMutatedTrees(t *testing.T) {
-	ev.Checks(12000, 40000)
+	ev.Checks(16000, 40000)
 
 	rapid.Check(t, func(t *rapid.T) {
 		tree := gmime.Draw(t, gmime.Config{MaxBody: ev.Pick(2048, 65536), LargePct: 2, MaxNodes: 12})
@@ -354,7 +353,7 @@ func TestCorpusMutations(t *testing.T) {
 		}
 	}
 
-	ev.Checks(4000, 10000)
+	ev.Checks(5000, 10000)
 
 	rapid.Check(t, func(t *rapid.T) {
 		b := append([]byte{}, small[rapid.IntRange(0, len(small)-1).Draw(t, "file")]...)
